@@ -26,6 +26,7 @@ mod c32;
 mod c33;
 mod c34;
 mod c03;
+mod c08d;
 mod c03decl;
 mod c30;
 mod c31;
@@ -78,6 +79,7 @@ const EXECS: &[Exec] = &[
     c31::exec,
     c34::exec,
     c03::exec,
+    c08d::exec,
     c03decl::exec,
 ];
 
@@ -92,7 +94,10 @@ fn generate(prop: &str, sink: &mut sink::Sink, rng: &mut rng::Rng, n: u64) -> bo
         "LANG" => lang::generate(sink, rng, n, true, None),
         "C06" => lang::generate(sink, rng, n, false, Some("o.c06")),
         "C07" => lang::generate(sink, rng, n, false, Some("o.c07")),
-        "C08" => lang::generate(sink, rng, n, false, Some("o.c08")),
+        "C08" => {
+            lang::generate(sink, rng, n, false, Some("o.c08"));
+            c08d::generate(sink, rng, n);
+        }
         "C09" => lang::generate(sink, rng, n, false, Some("o.c09")),
         "C01" => typed::generate(sink, rng, n, "o.c01"),
         "C02" => typed::generate(sink, rng, n, "o.c02"),
